@@ -1,0 +1,33 @@
+//go:build verif
+
+// Contracts and ghost/spec functions for package utils, read by the /verif
+// condition generator (govc). This file is compiled only with -tags verif and
+// adds no behaviour to crs-toolchain.
+package utils
+
+// SpecBsRun is the number of consecutive backslashes that end right before index i.
+func SpecBsRun(s string, i int) int {
+	if i <= 0 || i > len(s) {
+		return 0
+	}
+	if s[i-1] != '\\' {
+		return 0
+	}
+	return SpecBsRun(s, i-1) + 1
+}
+
+// SpecEscaped: the byte at index i is preceded by an odd number of backslashes.
+func SpecEscaped(s string, i int) bool {
+	return SpecBsRun(s, i)%2 == 1
+}
+
+//@ contract IsEscaped
+//@   tags C19 C02 C09
+//@   opt termination C19
+//@   results r
+//@   requires 0 <= position && position <= len(input)
+//@   ensures r == SpecEscaped(input, position)
+//@   loop 0 invariant -1 <= backtrackIndex && backtrackIndex <= position-1
+//@   loop 0 invariant escapeCounter >= 0
+//@   loop 0 invariant SpecBsRun(input, position) == escapeCounter + SpecBsRun(input, backtrackIndex+1)
+//@   loop 0 decreases backtrackIndex + 1
